@@ -3787,6 +3787,182 @@ def r_autoref_siblings(P, R):
 r_autoref_siblings.NAME = 'R-ARGS(autoref sibling model)'
 
 
+def function_views_model(P, R):
+    """The read-only views of `dd.autoref.Function` evaluated by the
+    interpreter for every reference of small managers (both signs, the
+    constants): C18 - expanding on `u.var` with `u.high` / `u.low` and
+    applying `u.negated` reproduces `u`; `u.level` is the level of
+    `u.var`; `len(u)` and `u.dag_size` count the nodes reachable from
+    `u`; `u.support` are the variables `u` depends on; `u.ref` is the
+    count of the node; `int(u)` the reference; a copy is a new handle on
+    the same node."""
+    import itertools
+    stubs = ClassStubs(P, 'dd.bdd.BDD', extra={
+        '_request_reordering': lambda m, c, a, k: None})
+    resolver = interp.ModuleEnv(P, 'dd.autoref', stubs)
+    names = ['a', 'b', 'c']
+    rows = list(itertools.product((False, True), repeat=3))
+    tts = [tuple(bool(a and not b) for a, b, c in rows),
+           tuple(bool(b if a else c) for a, b, c in rows),
+           tuple(bool(a != c) for a, b, c in rows),
+           tuple(bool(c) for a, b, c in rows)]
+    fq = 'dd.autoref.Function'
+    problems = dict()
+    undecided = dict()
+    n = 0
+    try:
+        fcls = resolver('Function')
+        bcls = resolver('BDD')
+    except KeyError as e:
+        R.undecided('R-ROLE', fq, 'views model', str(e))
+        return None
+
+    def expr(text):
+        return ast.parse(text, mode='eval').body
+    views = {k: expr(v) for k, v in {
+        'var': 'h.var', 'level': 'h.level', 'low': 'h.low',
+        'high': 'h.high', 'negated': 'h.negated', '__len__': 'len(h)',
+        'dag_size': 'h.dag_size', 'support': 'h.support', 'ref': 'h.ref',
+        '__int__': 'h.__int__()', '__copy__': 'h.__copy__()',
+        '__hash__': 'h.__hash__()'}.items()}
+    for order in (['a', 'b', 'c'], ['c', 'a', 'b']):
+        base, ext = _build_manager(order, tts, range(len(tts)))
+        lv = {v: k for k, v in enumerate(order)}
+        for u0 in sorted(base['self._succ']):
+            for u in (u0, -u0):
+                obj = _object_manager(copy.deepcopy(
+                    {k: v for k, v in base.items() if k != 'self'}))
+                wrapper = interp.Sym('autoref manager', {
+                    '_bdd': obj, 'vars': obj.attrs['vars']})
+                wrapper.cls = bcls
+                h = interp.Sym('Function', {
+                    'node': u, 'bdd': wrapper, 'manager': obj})
+                h.cls = fcls
+                got = dict()
+                for k, e in views.items():
+                    if interp.Machine({}, stubs, resolver).method_of(
+                            h, k) is None:
+                        continue
+                    try:
+                        got[k] = ('value', interp.Machine(
+                            {'h': h}, stubs, resolver).ev(e))
+                    except interp.Raised as x:
+                        got[k] = ('raise', x.name)
+                    except interp.Unknown as x:
+                        undecided.setdefault(k, str(x))
+                n += 1
+                what = (f'order {order}, nodes {base["self._succ"]}: '
+                        f'the handle on {u}')
+                t_u = _tt_of(base, u, names)
+                succ = base['self._succ']
+
+                def bad(k, msg):
+                    problems.setdefault(k, f'{what}: {msg}')
+
+                def node_of(x):
+                    if isinstance(x, interp.Sym) and getattr(
+                            x, 'cls', None) is fcls:
+                        return x.attrs.get('node')
+                    return None
+                for k, (kind, v) in got.items():
+                    if kind == 'raise':
+                        bad(k, f'.{k} raises {v}')
+                if any(kind == 'raise' for kind, v in got.values()):
+                    continue
+                val = {k: v for k, (kind, v) in got.items()}
+                terminal = abs(u) == 1
+                if 'negated' in val and val['negated'] is not (u < 0):
+                    bad('negated', f'.negated is {val["negated"]!r}')
+                if 'level' in val and val['level'] != succ[abs(u)][0]:
+                    bad('level', f'.level is {val["level"]!r}, the node '
+                        f'is at level {succ[abs(u)][0]}')
+                if 'var' in val:
+                    want = None if terminal else order[succ[abs(u)][0]]
+                    if val['var'] != want:
+                        bad('var', f'.var is {val["var"]!r}, not {want!r}')
+                if all(k in val for k in ('low', 'high', 'var',
+                                          'negated')):
+                    lo, hi = node_of(val['low']), node_of(val['high'])
+                    if terminal:
+                        if val['low'] is not None or \
+                                val['high'] is not None:
+                            bad('low', 'a constant has successors '
+                                f'{val["low"]!r}, {val["high"]!r}')
+                    elif not (isinstance(lo, int) and isinstance(hi, int)
+                              and abs(lo) in succ and abs(hi) in succ
+                              and val['var'] in names):
+                        bad('low', f'.low / .high are {val["low"]!r}, '
+                            f'{val["high"]!r}')
+                    else:
+                        t_lo = _tt_of(base, lo, names)
+                        t_hi = _tt_of(base, hi, names)
+                        k_ = names.index(val['var'])
+                        rebuilt = tuple(
+                            (t_hi[i] if r[k_] else t_lo[i])
+                            != bool(val['negated'])
+                            for i, r in enumerate(rows))
+                        if rebuilt != t_u:
+                            bad('low', 'if .var then .high else .low, '
+                                'complemented when .negated, with .var = '
+                                f'{val["var"]!r}, .high on {hi}, .low on '
+                                f'{lo}, .negated = {val["negated"]!r}, is '
+                                'not the function of the handle')
+                reach, todo = {1}, [abs(u)]
+                while todo:
+                    x = todo.pop()
+                    if x in reach:
+                        continue
+                    reach.add(x)
+                    todo += [abs(succ[x][1]), abs(succ[x][2])]
+                for k in ('__len__', 'dag_size'):
+                    if k in val and val[k] != len(reach):
+                        bad(k, f'{k} gives {val[k]!r}; {len(reach)} nodes '
+                            'are reachable (the terminal included)')
+                if 'support' in val:
+                    dep = {x for j, x in enumerate(names) if any(
+                        t_u[i] != t_u[rows.index(
+                            r[:j] + (not r[j],) + r[j + 1:])]
+                        for i, r in enumerate(rows))}
+                    if val['support'] != dep:
+                        bad('support', f'.support is {val["support"]!r}; '
+                            f'the function depends on {sorted(dep)}')
+                if 'ref' in val and val['ref'] != base['self._ref'][abs(u)]:
+                    bad('ref', f'.ref is {val["ref"]!r}; the count of the '
+                        f'node is {base["self._ref"][abs(u)]}')
+                if '__int__' in val and val['__int__'] != u:
+                    bad('__int__', f'int() gives {val["__int__"]!r}')
+                if '__hash__' in val and not isinstance(
+                        val['__hash__'], int):
+                    bad('__hash__', f'hash() gives {val["__hash__"]!r}')
+                if '__copy__' in val:
+                    c = val['__copy__']
+                    if node_of(c) != u or c is h or \
+                            c.attrs.get('bdd') is not wrapper:
+                        bad('__copy__', 'a copy is not a new handle on '
+                            'the same node of the same manager')
+    for k, why in sorted(undecided.items()):
+        R.undecided('R-ROLE', f'{fq}.{k}', 'views model', why)
+    for k, msg in sorted(problems.items()):
+        f = P.func(f'{fq}.{k}', required=False)
+        R.violation('R-ROLE', 'view', f'{fq}.{k}', k, msg,
+                    unit=f.unit.rel if f else 'dd/autoref.py',
+                    line=f.lineno if f else None)
+    if not problems:
+        R.holds('R-ROLE', fq,
+                f'views model ({n} handles, {len(views)} views each): the '
+                'expansion on var / high / low / negated reproduces the '
+                'function; level, size, support, count and copy as C18 '
+                'gives them')
+    return n
+
+
+def r_function_views(P, R):
+    n = function_views_model(P, R)
+    if n is not None:
+        R.floor('R-ROLE handles of the views model', n, 20)
+r_function_views.NAME = 'R-ROLE(Function views model)'
+
+
 def dot_model(P, R):
     """`dd.bdd._to_dot(roots, bdd)` interpreted (with `dd._utils.DotGraph`)
     on small managers: the graph it builds must show, for every node
